@@ -670,6 +670,14 @@ class Sym:
         return mk(a - b * z3.ToReal(z3.ToInt(a / b)))
 
     def __pow__(s, o):
+        if isinstance(o, _np.ndarray):
+            return NotImplemented          # numpy broadcasts through the elements
+        if _is_np_int(o):
+            o = int(o)
+        elif _is_np_float(o):
+            o = float(o)
+        if isinstance(o, Sym):
+            o = ENGINE.concretize(o.e) if o.isint else o
         if isinstance(o, int) and not isinstance(o, bool) and o >= 0:
             r = z3.IntVal(1) if s.isint else z3.RealVal(1)
             for _ in range(o):
@@ -680,6 +688,13 @@ class Sym:
         if isinstance(o, float) and o == int(o) and o >= 0:
             return s.__pow__(int(o))
         raise Unsupported(f"pow {o}")
+
+    def __rpow__(s, o):
+        # concrete base, symbolic integer exponent: case split on the exponent
+        if s.isint and isinstance(o, (int, float)) or _is_np_int(o) or _is_np_float(o):
+            k = ENGINE.concretize(s.e)
+            return o ** int(k)
+        raise Unsupported(f"rpow {o}")
 
     def _cmp(s, o, f):
         if isinstance(o, SymSqrt):
